@@ -40,7 +40,7 @@ THEOREMS = {
     'C02_serial_witness': 'non-vacuity of the serialiser hypotheses: a Serial lossless on EVERY tree (identity encoder, prefix-code printers) exists - a Lean artefact, not PyYAML / xml.*, which lose some trees; C02_chain and C02_lower instantiated with it hold without hypotheses on the example database',
     'C02_encode_exact': 'encoder (model encodeLatex of Writer._encode with the default encoding, tied by the op encode and by the regenerated latexcodec table): for EVERY string, encodeLatex s = s if and only if s contains none of # % & _ ~, and the result is never shorter; no hypotheses',
     'C02_bibtex_roundtrip_latex': 'bibtex with the MODELLED encoder in place of the encoder hypothesis: WFDb d  =>  write_stream with _encode = encodeLatex succeeds and the text is read back with nothing raised or reported as the same entries and preamble (one string); no hypothesis about latexcodec left in the statement (the tie of encodeLatex to latexcodec is the differential check)',
-    'C02_chain_latex': 'chains with the modelled encoder: for every Serial whose encode field is encodeLatex the encoder hypothesis of C02_chain / C02_lower / C02_chain_steps holds, hence their conclusions under the remaining hypotheses (d in the domain of each format, YAML / XML serialisers lossless on the trees written along the chain)',
+    'C02_chain_latex': 'chains with the modelled encoder: for every Serial whose encode field is encodeLatex the encoder hypothesis shared by C02_chain / C02_lower / C02_chain_steps holds (conjunct 1), and the conclusions of C02_chain and C02_lower are restated under the remaining hypotheses (d in the domain of each format, serialisers lossless on the trees written along the chain); C02_chain_steps follows by applying conjunct 1, not restated',
     'C02_encode_any_encoding': 'any output encoding (Writer(encoding=...), to_bytes / to_file with encoding=): for EVERY string all of whose characters the encoding can represent, codecs.encode(s, "ulatex+<encoding>") - C09 model of the codec, the function both the LaTeX backend and this writer call - equals encodeLatex s, so a string free of # % & _ ~ is written unchanged under every such encoding (composition with C09; function-level op encodeenc)',
     'C02_encode_any_encoding_neg': 'the hypothesis "the encoding can hold the string" cannot be dropped (kernel-evaluated): with ascii an e-acute is written as a LaTeX macro the .bib reader does not translate back, en dash / dagger likewise, a CJK character raises UnicodeEncodeError - the reason ASSUMPTIONS keeps to encodings that can hold every string',
     'C02_encode_comments': '_encode_with_comments (preamble): for EVERY text free of # & _ ~ (percent signs allowed) the result is the text itself; split("%") / "%".join is the identity on every text. Writer level only: the claimed round-trip domain still excludes % in preambles',
